@@ -2865,7 +2865,11 @@ func (uconn *UConn) ApplyPreset(p *ClientHelloSpec) error {
 				ext.Value = GetBoringGREASEValue(uconn.greaseSeed, ssl_grease_extension1)
 			case 1:
 				ext.Value = GetBoringGREASEValue(uconn.greaseSeed, ssl_grease_extension2)
-				ext.Body = []byte{0}
+				if len(ext.Body) == 0 {
+					// BoringSSL's second GREASE extension has a one-byte body; a spec
+					// that brings its own body (a fingerprinted hello) keeps it.
+					ext.Body = []byte{0}
+				}
 			default:
 				return errors.New("at most 2 grease extensions are supported")
 			}
